@@ -241,6 +241,14 @@ func search(t *testing.T, e *Engine, prop, tier string, seed uint64, res *Worker
 		if allHash {
 			res.AllHashes = append(res.AllHashes, fmt.Sprintf("%d:%016x", idx, r.TraceHash()))
 		}
+		if dump := os.Getenv("VERIF_DUMP_TRACE"); dump != "" {
+			// debugging aid for the determinism self-test: full trace of every run
+			f, err := os.OpenFile(dump, os.O_APPEND|os.O_CREATE|os.O_WRONLY, 0o644)
+			if err == nil {
+				fmt.Fprintf(f, "== run %d hash %016x\n%s\n", idx, r.TraceHash(), strings.Join(r.Trace(), "\n"))
+				f.Close()
+			}
+		}
 		if v := r.Violation(); v != nil && known[v.Class+"|"+v.Sig] {
 			res.KnownHits++
 			if res.KnownSample == nil {
